@@ -143,6 +143,7 @@ func c06Run(c core.Case) *core.Result {
 	var nt int64
 	seen := map[string]bool{}
 	var recs []oracle.Rec
+	var reused sam.Record
 	for i := 0; i < n && len(r.Viol) < 6; i++ {
 		rec := gen.RandRec(rng, gen.RecOpts{NRefs: nref, SAMSafe: true, NoBigCig: rng.Intn(30) != 0, MaxSeq: 200}, i)
 		recs = append(recs, rec)
@@ -169,7 +170,11 @@ func c06Run(c core.Case) *core.Result {
 					break
 				}
 			}
-			var back sam.Record
+			var fresh sam.Record
+			back := &fresh
+			if i%2 == 1 {
+				back = &reused // parse into the record that parsed the previous lines
+			}
 			pv, st = core.Recover(func() { err = back.UnmarshalSAM(h, L) })
 			if pv != nil {
 				r.Violate("panic|UnmarshalSAM|"+core.TopLibFrame(st), "UnmarshalSAM panicked on its own output %.300q: %v", line, pv)
@@ -193,7 +198,7 @@ func c06Run(c core.Case) *core.Result {
 				r.Violate("roundtrip|line-changed", "format→parse→format changed the line (err %v):\n%.600s\n%.600s", err, line, L2)
 				break
 			}
-			if cls, d := sameParsed(&back, rec, h); cls != "" {
+			if cls, d := sameParsed(back, rec, h); cls != "" {
 				r.Violate("roundtrip|"+cls, "parsed record differs: %s\nline: %.600s", d, line)
 				break
 			}
@@ -265,7 +270,11 @@ func c06Reader(r *core.Result, c core.Case, refs []oracle.RefSpec, h *sam.Header
 	}
 	var lines []string
 	for i := 0; i < k; i++ {
-		rec := gen.RandRec(rng, gen.RecOpts{NRefs: len(refs), SAMSafe: true, NoBigCig: true, MaxSeq: 60}, i)
+		maxSeq := 60
+		if rng.Intn(4) == 0 {
+			maxSeq = 9000 // lines longer than the reader's 4096 byte buffer
+		}
+		rec := gen.RandRec(rng, gen.RecOpts{NRefs: len(refs), SAMSafe: true, NoBigCig: true, MaxSeq: maxSeq}, i)
 		// keep to what the parser accepts on this tree apart from the clause under test
 		var aux []oracle.AuxF
 		for _, a := range rec.Aux {
